@@ -47,6 +47,9 @@ type KnownFinding struct {
 type Expected struct {
 	Property    string   `json:"property"`
 	Obligations []string `json:"obligations"`
+	// obligations that did not discharge (or only slowly) at baseline: never claimed; the quick tier does not
+	// spend solver time on them again, the thorough tier does
+	Unclaimed []string `json:"unclaimed,omitempty"`
 }
 
 func verifRoot() string {
@@ -90,6 +93,23 @@ func loadExpected(root, id string) map[string]bool {
 	return m
 }
 
+var baselineMode bool
+
+func loadUnclaimed(root, id string) map[string]bool {
+	m := map[string]bool{}
+	data, err := os.ReadFile(filepath.Join(root, "contracts", "expected", id+".json"))
+	if err != nil {
+		return m
+	}
+	var ex Expected
+	if json.Unmarshal(data, &ex) == nil {
+		for _, o := range ex.Unclaimed {
+			m[o] = true
+		}
+	}
+	return m
+}
+
 func loadFindings(root string) []KnownFinding {
 	data, err := os.ReadFile(filepath.Join(root, "known_findings.json"))
 	if err != nil {
@@ -109,7 +129,7 @@ func labelledKind(name string) bool {
 		return true
 	}
 	k := name[i+1:]
-	for _, p := range []string{"post:", "pre:", "inv-init:", "inv-step:", "dec:", "assert:", "cover:", "frame:"} {
+	for _, p := range []string{"post:", "pre:", "inv-init:", "inv-step:", "dec:", "assert:", "reach:", "cover:", "frame:"} {
 		if strings.HasPrefix(k, p) || strings.Contains(k, "/"+p) {
 			return true
 		}
@@ -131,6 +151,7 @@ type runOutcome struct {
 	assumed    []string
 	funcs      []map[string]interface{}
 	unclaimed  int
+	skipped    int
 	loadS      float64
 }
 
@@ -197,7 +218,18 @@ func runProperty(root, repo string, pc *PropConfig, tier string, seed int, overl
 		timeout = 60 * time.Second
 	}
 	sv := &Solvers{Timeout: timeout, Parallel: 8, Seed: seed, All: tier == "thorough"}
-	eng.discharge(ro.frs, sv, nil)
+	var only func(string) bool
+	knownUnclaimed := loadUnclaimed(root, pc.ID)
+	if !baselineMode && len(knownUnclaimed) > 0 {
+		only = func(name string) bool { return !knownUnclaimed[name] }
+	}
+	eng.discharge(ro.frs, sv, only)
+	if tier == "thorough" && !baselineMode && len(knownUnclaimed) > 0 {
+		// obligations that did not discharge at baseline are tried again, but with the short timeout: they decide
+		// nothing, they are only reported
+		sv2 := &Solvers{Timeout: 10 * time.Second, Parallel: 8, Seed: seed}
+		eng.discharge(ro.frs, sv2, func(name string) bool { return knownUnclaimed[name] })
+	}
 	for _, d := range sv.Disagree {
 		ro.violations = append(ro.violations, violation{obligation: "solver-disagreement", reason: d, noInput: true})
 	}
@@ -234,7 +266,7 @@ func runProperty(root, repo string, pc *PropConfig, tier string, seed int, overl
 		for _, or := range fr.Obls {
 			seen[or.Name] = true
 			claimed := expected[or.Name]
-			if !claimed && labelledKind(or.Name) {
+			if !claimed && labelledKind(or.Name) && !knownUnclaimed[or.Name] {
 				// a further instance (#n) of a claimed labelled obligation, e.g. a second back edge of the same loop
 				// after the code changed, stands under the same claim
 				if i := strings.LastIndex(or.Name, "#"); i > strings.Index(or.Name, "#") {
@@ -273,7 +305,12 @@ func runProperty(root, repo string, pc *PropConfig, tier string, seed int, overl
 				}
 			} else {
 				ro.unclaimed++
-				if or.Status != "proved" {
+				if or.Status == "skipped" {
+					ro.skipped++
+					if !labelledKind(or.Name) {
+						assumed["run-time check not proved, assumed (partial correctness): "+or.Name] = true
+					}
+				} else if or.Status != "proved" {
 					if !quiet {
 						ro.notes = append(ro.notes, fmt.Sprintf("NOTE undischarged-unclaimed-obligation %s (%s)", or.Name, or.Status))
 					}
@@ -336,13 +373,20 @@ func checkMain(args []string) {
 	}
 	t0 := time.Now()
 	os.RemoveAll(filepath.Join(root, "replay", pc.ID))
+	baselineMode = *baseline
 	ro := runProperty(root, *repo, pc, *tier, seed, nil, false)
 	if *baseline {
+		for _, n := range ro.notes {
+			if strings.HasPrefix(n, "NOTE contract anchor lost") {
+				fmt.Println("cannot baseline:", n)
+				os.Exit(2)
+			}
+		}
 		if ro.undecided != "" {
 			fmt.Println("cannot baseline:", ro.undecided)
 			os.Exit(2)
 		}
-		var names []string
+		var names, unclaimed []string
 		findings := loadFindings(root)
 		for _, fr := range ro.frs {
 			for _, or := range fr.Obls {
@@ -355,12 +399,14 @@ func checkMain(args []string) {
 				if or.Status == "proved" && or.TimeS < 4 || isF {
 					names = append(names, or.Name)
 				} else {
+					unclaimed = append(unclaimed, or.Name)
 					fmt.Printf("not claimed: %s (%s, %.1fs)\n", or.Name, or.Status, or.TimeS)
 				}
 			}
 		}
 		sort.Strings(names)
-		data, _ := json.MarshalIndent(Expected{Property: pc.ID, Obligations: names}, "", " ")
+		sort.Strings(unclaimed)
+		data, _ := json.MarshalIndent(Expected{Property: pc.ID, Obligations: names, Unclaimed: unclaimed}, "", " ")
 		os.MkdirAll(filepath.Join(root, "contracts", "expected"), 0o755)
 		os.WriteFile(filepath.Join(root, "contracts", "expected", pc.ID+".json"), append(data, '\n'), 0o644)
 		fmt.Printf("baseline: %d obligations claimed for %s\n", len(names), pc.ID)
@@ -408,6 +454,7 @@ func writeEvidence(root string, pc *PropConfig, ro *runOutcome, tier string, see
 		"by_backend":               ro.byBackend,
 		"solver_time_s":            round3(ro.solverTime),
 		"unclaimed_obligations":    ro.unclaimed,
+		"unclaimed_not_attempted":  ro.skipped,
 		"samples":                  ro.samples,
 		"known_findings":           ro.known,
 		"notes":                    ro.notes,
